@@ -242,8 +242,8 @@ func (d *syDrv) senderRound() {
 	if k+24 > d.n || d.multi != nil {
 		return
 	}
-	shape := []string{"prefed", "stream", "recvrestart", "two", "prefed", "stream", "handover"}[d.rng.Intn(7)]
-	if shape == "recvrestart" && !d.restarts {
+	shape := []string{"prefed", "stream", "recvrestart", "two", "notready", "stream", "handover", "notready"}[d.rng.Intn(8)]
+	if (shape == "recvrestart" || shape == "notready") && !d.restarts {
 		shape = "stream"
 	}
 	j := clampInt(k+1-d.rng.Intn(7), 1, k+1)
@@ -287,6 +287,17 @@ func (d *syDrv) senderRound() {
 		restarted <- nil
 	}
 	switch shape {
+	case "notready":
+		// the send loop is running (it has fetched the destination's position); then the receiving raft
+		// group goes away for most of a second while the server stays up: the batch is answered with
+		// 404 "raft group not ready" - not delivered - and has to be sent again until it is taken
+		a.Start()
+		time.Sleep(60 * time.Millisecond)
+		down := time.Duration(400+d.rng.Intn(500)) * time.Millisecond
+		<-restarted
+		go func() { restarted <- d.restartDown(down) }()
+		time.Sleep(40 * time.Millisecond)
+		d.feed(a, j, m, false, stop)
 	case "prefed":
 		d.feed(a, j, m, false, stop)
 		a.Start()
@@ -328,7 +339,7 @@ func (d *syDrv) senderRound() {
 		d.emit(trace.M{"ev": "abort", "what": "receiver restart: " + rerr.Error()})
 		return
 	}
-	if shape == "recvrestart" {
+	if shape == "recvrestart" || shape == "notready" {
 		d.obs("restart")
 		return
 	}
@@ -778,7 +789,11 @@ func (d *syDrv) remoteSnapAt(at int) {
 	os.RemoveAll(srcDir)
 }
 
-func (d *syDrv) restart() error {
+func (d *syDrv) restart() error { return d.restartDown(50 * time.Millisecond) }
+
+// restartDown: the receiving raft group is stopped, stays away for `down` (the server and its gRPC
+// service stay up and answer "raft group not ready", code 404) and is started again.
+func (d *syDrv) restartDown(down time.Duration) error {
 	d.pollMu.Lock()
 	defer d.pollMu.Unlock()
 	n := d.cs.kv.GetNamespaceFromFullName("default-0")
@@ -787,7 +802,7 @@ func (d *syDrv) restart() error {
 	}
 	snapi := n.Node.GetLastSnapIndex()
 	n.Close()
-	time.Sleep(50 * time.Millisecond)
+	time.Sleep(down)
 	var err error
 	var nn *node.NamespaceNode
 	for k := 0; k < 20; k++ {
